@@ -20,7 +20,7 @@ def describe(tier):
                 % (nmax, 20),
         'bounds': 'n<=%d exhaustive over inputs; 3 keys' % nmax,
         'assumptions': ['n = 1 is outside the property (it starts at n = 2)', 'non-default constructions: even round counts {2,4,6,8,12,16} x {sha1,sha256,md5,sha512}, all inputs of n = 2..8 (10); an odd round count is outside (upstream pyffx construction: with unequal halves it is its own inverse only for an even number of rounds; nothing in the library uses one)', 'keys are DRBG values (3 per width)'],
-        'must_be_nonzero': ['ffx-exhaustive-widths', 'ffx-nondefault-construction', 'ffx-wide', 'fpeprp-contract', 'lr-2byte-exhaustive', 'lr-4byte-slices', 'lr-contract-refused'],
+        'must_be_nonzero': ['ffx-exhaustive-widths', 'ffx-nondefault-construction', 'ffx-key-histories', 'ffx-wide', 'fpeprp-contract', 'lr-2byte-exhaustive', 'lr-4byte-slices', 'lr-contract-refused'],
     }
 
 
@@ -36,6 +36,7 @@ def units(tier, seed):
         for dg in ('sha1', 'sha256', 'md5', 'sha512'):
             us.append(('ffxcfg/%d/%s' % (rounds, dg), {'kind': 'ffx', 'n': None, 'ki': 1, 'rounds': rounds, 'digest': dg, 'ns': list(range(2, 9 if tier == 'quick' else 11))}))
     us.append(('fpeprp', {'kind': 'fpeprp'}))
+    us.append(('keyhist', {'kind': 'keyhist'}))
     for q in range(4):
         us.append(('lr2/%d' % q, {'kind': 'lr2', 'q': q}))
     us.append(('lr2-join', {'kind': 'lr2join'}))
@@ -235,6 +236,43 @@ def run_unit(p, tier, seed):
             r.v(PROPERTY, 'HmacLubyRackoffPRP', 'bijection', 'collision', {'message_length': 2, 'quarter': q}, 16384, len(img))
         r.count('lr-2byte-exhaustive')
         r.outcome('lr2-quarter-injective')
+    elif kind == 'keyhist':
+        # many keys through ONE cipher object, each used again later: the permutation of a key does not depend on which other keys
+        # the object has seen in between (tables of all 2^n images taken twice, in two different key orders)
+        n, nkeys = 6, 20
+        g = det.rng(seed, 'c15-keyhist')
+        keys = [g.randbytes(16) for _ in range(nkeys)]
+        P = get_prp_implementation('BitwiseFPEPRP')
+        objs = {'BitwiseFFX': (BitwiseFFX(), lambda o, k, x: int(o.encrypt(k, Bitset(x, n))), lambda o, k, y: int(o.decrypt(k, Bitset(y, n)))),
+                'BitwiseFPEPRP': (P(key_bit_length=128, message_bit_length=n), lambda o, k, x: int(o(Bitset(k, 128), Bitset(x, n))), None)}
+        for oname, (o, enc, dec) in objs.items():
+            tables = {}
+            order1 = list(range(nkeys))
+            order2 = list(reversed(range(nkeys)))
+            for rnd, order in enumerate((order1, order2, order1)):
+                for ki in order:
+                    tab = tuple(enc(o, keys[ki], x) for x in range(1 << n))
+                    r['evaluations'] += 1 << n
+                    r['transitions'] += 1 << n
+                    r['states'] += 1
+                    r['nontrivial'] += 1
+                    case = {'object': oname, 'n': n, 'key_history': 'round %d, key %d of %d' % (rnd, ki, nkeys)}
+                    core.note_case(case)
+                    if sorted(tab) != list(range(1 << n)):
+                        r.v(PROPERTY, oname, 'bijection', 'collision-after-key-history', case, 'a permutation of {0,1}^%d' % n, 'not a permutation')
+                    if ki in tables and tables[ki] != tab:
+                        r.v(PROPERTY, oname, 'key-history', 'permutation-of-a-key-changed', case, 'the same permutation as the first time this key was used', 'differs')
+                        r.outcome('key-history-dependent')
+                    tables.setdefault(ki, tab)
+                    if dec is not None and rnd == 2:
+                        # ciphertexts made in round 0 are inverted in round 2
+                        if any(dec(o, keys[ki], tables[ki][x]) != x for x in range(1 << n)):
+                            r.v(PROPERTY, oname, 'inverse', 'decrypt-after-key-history', case, 'decrypt inverts the ciphertexts made earlier under this key', 'differs')
+            if len(set(tables.values())) != nkeys:
+                r.v(PROPERTY, oname, 'key-history', 'two-keys-one-permutation', {'object': oname, 'n': n}, '%d distinct permutations for %d keys' % (nkeys, nkeys), len(set(tables.values())))
+            r.count('ffx-key-histories')
+        r.outcome('key-history-independent')
+        r.sample({'prim': 'BitwiseFFX / BitwiseFPEPRP', 'n': n, 'keys_through_one_object': nkeys, 'orders': 3}, limit=1)
     elif kind == 'lrslice':
         # 4-byte messages: the whole domain (2^32) is too large, but a Feistel network must be injective on every slice of it.
         # Slices that fix one half and run through ALL 65536 values of the other exercise every value a round's XOR can take.
@@ -349,6 +387,8 @@ def replay(case, seed):
         return run_unit({'kind': 'ffxw', 'n': case['n'], 'count': 20}, 'quick', seed)['violations']
     if 'declared' in case or case.get('n') == 6 or case.get('shared_key'):
         return run_unit({'kind': 'fpeprp'}, 'quick', seed)['violations']
+    if 'key_history' in case or 'object' in case:
+        return run_unit({'kind': 'keyhist'}, 'quick', seed)['violations']
     if 'slice' in case:
         return run_unit({'kind': 'lrslice', 'ki': case['key_index'], 'vary': case['slice'], 'fi': case['fixed_index']}, 'quick', seed)['violations']
     if case.get('message_length') == 2 and 'quarter' in case:
